@@ -1126,6 +1126,9 @@ fn read_timebase(cur: &mut SourceCursor, song: &mut Song) -> Token {
     if song.timebase <= 48 {
         song.timebase = 48;
     }
+    if song.timebase > 32767 { // SMF division is 15bit (bit15 means SMPTE format)
+        song.timebase = 32767;
+    }
     Token::new_empty(&format!("TIMEBASE={}", v.to_i()), cur.line)
 }
 
